@@ -993,9 +993,14 @@ class Engine:
                 # no processes ran, jump to next process
                 next_event = end_time
                 for path in self.front.keys():
-                    if self.front[path]['time'] < next_event:
+                    if self.global_time < self.front[path]['time'] < next_event:
                         next_event = self.front[path]['time']
                 self.global_time = next_event
+
+                # quiet processes still advance in time
+                for quiet in quiet_paths:
+                    self.front[quiet]['time'] = self.global_time
+                    self.front[quiet]['update'] = {}
 
             elif self.global_time + full_step <= end_time:
                 # at least one process ran within the interval
